@@ -949,6 +949,14 @@ func (c *Compiler) linkRecursiveCode(ctx *compileContext) error {
 		lastCode.ElemIdx = lastCode.Idx + uintptrSize
 		lastCode.Length = lastCode.Idx + 2*uintptrSize
 
+		// an interface value inside the recursive code starts its own frame
+		// behind this one (the slots of the code plus those of lastCode)
+		for c := code; c.Op != OpRecursiveEnd; c = c.IterNext() {
+			if c.Op == OpInterface || c.Op == OpInterfacePtr {
+				c.Length = uint32(totalLength + 1)
+			}
+		}
+
 		// extend length to alloc slot for elemIdx + length
 		curTotalLength := uintptr(recursive.TotalLength()) + 3
 		nextTotalLength := uintptr(totalLength) + 3
